@@ -6,7 +6,9 @@ import HcipyVerif.Model.Elements
 /-!
 Line-protocol front end of the C06 model.
 
-* `C06 effects NAME` → `ok safe=B retIsInput=B retShares=B writes=a,b|- safeGrid=B safeStokes=B retSharesGrid=B` :
+* `C06 effects NAME` → `ok safe=B retIsInput=B retShares=B writes=a,b|- safeGrid=B safeStokes=B retSharesGrid=B touches=copy,wrap,a,…|- created=N` :
+  (`touches`: what the run did to the input object, in order — `.copy()` of it, a wavefront wrapped around its
+  array, attribute writes; `created`: number of wavefront objects the run created.)
   (`safeGrid`/`safeStokes`: the checker's verdict on `Effects.viewProg` — the program as it acts on the heap of
   grid objects / Stokes vectors; `retSharesGrid`: does the result point to the input's grid object.) The static verdict of the
   checker on the named effect program of `Model/Elements.lean` and the observable footprint of
@@ -135,7 +137,10 @@ def step (st : St) : List String → St × String
       let w := if o.writes.isEmpty then "-" else ",".intercalate (o.writes.map showAttr)
       let sg := match retSharesAttr demoSem .grid p demoIn with
         | some b => showBool b | none => "-"
-      (st, s!"ok safe={showBool (safe p)} retIsInput={showBool o.retIsInput} retShares={showBool o.retSharesBuf} writes={w} safeGrid={showBool (safeAttr .grid p)} safeStokes={showBool (safeAttr .stokes p)} retSharesGrid={sg}")
+      let showTouch : Touch → String
+        | .copyInput => "copy" | .wrapInput => "wrap" | .write a => showAttr a
+      let t := if o.touches.isEmpty then "-" else ",".intercalate (o.touches.map showTouch)
+      (st, s!"ok safe={showBool (safe p)} retIsInput={showBool o.retIsInput} retShares={showBool o.retSharesBuf} writes={w} safeGrid={showBool (safeAttr .grid p)} safeStokes={showBool (safeAttr .stokes p)} retSharesGrid={sg} touches={t} created={o.created}")
     | none => (st, "bad-op")
   | ["internal", name] =>
     match HcipyVerif.Elements.internalByName name with
